@@ -70,6 +70,34 @@ def cases(tier, rng):
             c.expect = ("route", list(idents), sends)
             out.append(c)
             n += 1
+    # a client restarts with a FIXED identity: the old connection ended (EOF / error observed), the new one announces
+    # the same identity — replies must reach the connection that currently holds it
+    for how in ("eof", "rderr"):
+        for ident in (b"fixed", b"F" * 255):
+            for between in (True, False):
+                sc = wg.Script()
+                sc.sock(1, "ROUTER")
+                sc.attach(1, 1, "DEALER", ident)
+                sc.attach(1, 3, "DEALER", b"other")
+                sc.add("wire 1", "wire 3")
+                sc.reveal_msg(1, [b"hello"])
+                f = sc.fut()
+                sc.add(f"recv {f} 1", f"poll {f}", f"drop {f}")
+                sc.add(f"{how} 1" + (" ConnectionReset" if how == "rderr" else ""))
+                if between:
+                    f = sc.fut()
+                    sc.add(f"recv {f} 1", f"poll {f}", f"drop {f}")
+                sc.attach(1, 2, "DEALER", ident)
+                sc.add("wire 2")
+                sc.reveal_msg(2, [b"again"])
+                f = sc.fut()
+                sc.add(f"recv {f} 1", f"poll {f}", f"drop {f}")
+                g = sc.fut()
+                sc.add(f"send {g} 1 {wg.mtok([ident, b'reply'])}", f"poll {g}", "wire 1", "wire 2", "wire 3")
+                c = sc.case(f"reconnect#{n}", ["reconnect-same-identity"])
+                c.expect = ("reconnect", ident)
+                out.append(c)
+                n += 1
     # labelling: two peers, all interleavings of their messages
     for a1, a2 in [(None, None), (b"x", None), (b"x", b"y" * 255)]:
         seqs = set(itertools.permutations([1, 1, 2, 2]))
@@ -184,6 +212,17 @@ def oracle(case, lines):
         return None
     res = list(zip(case.ops, lines[1:]))
     kind = case.expect[0]
+    if kind == "reconnect":
+        w = {op: l for op, l in res if op.startswith("wire")}
+        pl = [l for op, l in res if op.startswith("poll")][-1]
+        want = "wire " + wg.show_wire([[b"reply"]])
+        if pl != "ready ok" or w["wire 2"] != want or w["wire 1"] != "wire ." or w["wire 3"] != "wire .":
+            return (f"after a client reconnected under the same identity the reply did not go to the connection that now "
+                    f"holds it: send={pl} old={w['wire 1'][:40]} new={w['wire 2'][:40]} other={w['wire 3'][:40]}")
+        got = [l for op, l in res if op.startswith("poll") and l.startswith("ready ok M[")]
+        if not got or not got[-1].startswith(f"ready ok M[{wg.show_frames([case.expect[1]])},"):
+            return f"message of the reconnected client not labelled with its identity: {got[-1][:80] if got else None}"
+        return None
     if kind == "route":
         return check_sends(res, case.expect[1], case.expect[2])
     if kind == "label":
